@@ -224,6 +224,16 @@ func (env *Env) call(e *ECall) TV {
 		T, _ := fc.resolveType(ts.Val, env.tpkg)
 		k := P.Box(T)
 		return TV{fmt.Sprintf("(= (tagof %s) tag_%s)", x.T, k), "Bool", B}
+	case "param":
+		// param("x"): the value parameter x had on entry (loop invariants see the current value of a reassigned parameter)
+		ns, ok := env.strLit(e.Args[0])
+		if !ok || env.param == nil {
+			return env.fail("param needs a string literal parameter name")
+		}
+		if tv, ok := env.param(ns.Val); ok {
+			return tv
+		}
+		return env.fail("param: unknown parameter %q", ns.Val)
 	case "local":
 		// local("x"): the Go variable x, even where a contract keyword (result, idx, ...) shadows its name
 		ns, ok := env.strLit(e.Args[0])
